@@ -225,7 +225,7 @@ def _(h):
     if h.sym:
         h.unit(u)
     else:
-        u = u / np.linalg.norm(u)
+        u = unitize(u)
     S = h.arr([v[0], v[1], v[2], u[0], u[1], u[2]])
     a, b = h.angle('a', -3, 3), h.angle('b', -3, 3)
     Ea = base.adjoint(base.trexp(S, a))
